@@ -238,6 +238,15 @@ class ModeController(MpfController):
         self.debug_log("Removing mode from ball ending queue")
 
         if not self.mode_stop_count:
+            # a game mode which was started while the ball end waited for the other modes has to end with this ball
+            # as well. otherwise it lives on in the next player's turn with its devices bound to this player
+            for mode in list(self.active_modes):
+                if mode.is_game_mode and mode.auto_stop_on_ball_end and \
+                        mode.stop(callback=self._mode_stopped_callback):
+                    self.debug_log("Adding late started mode '%s' to ball ending queue", mode.name)
+                    self.mode_stop_count += 1
+
+        if not self.mode_stop_count:
             self.queue.clear()
 
     def register_load_method(self, load_method, config_section_name=None,
